@@ -850,4 +850,239 @@ theorem runTo5_double_fresh (c : Cfg) (na : Nat) (p : Proc5) :
       stepActs5 c na (0 + k + 1) (0 + k + 1) 7 true (runTo5 naLabel c na 0 k p)
     rw [runTo5_double_fresh c na p k]
 
+/-! ## Parts 1 + 2: the nonadiabatic stream with values -/
+
+theorem erase_vstepActs5 (D : Dyn σ κ Rec) (O : NAObs σ Rec) (c : Cfg) (na s upto : Nat)
+    (naDone : Bool) (p : VProc5 σ κ Rec) :
+    (vstepActs5 D O c na s upto naDone p).erase = stepActs5 c na s s upto naDone p.erase := by
+  unfold vstepActs5 stepActs5 VProc5.erase
+  simp only [erase_vstepActs]
+  have e := erase_step na p.na s (O.mid p.base.st)
+  cases (naDone || decide (0 < upto)) <;> cases (decide (4 < upto) && isDue c.ckpt s) <;>
+    simp only [Bool.false_eq_true, if_false, if_true, ← e] <;> rfl
+
+theorem erase_vrunTo5 (D : Dyn σ κ Rec) (O : NAObs σ Rec) (c : Cfg) (na o : Nat) (p : VProc5 σ κ Rec) :
+    ∀ k, (vrunTo5 D O c na o k p).erase = runTo5 naLabel c na o k p.erase
+  | 0 => rfl
+  | k + 1 => by
+    show (vstepActs5 D O c na (o + k + 1) 7 true (vrunTo5 D O c na o k p)).erase =
+      stepActs5 c na (o + k + 1) (o + k + 1) 7 true (runTo5 naLabel c na o k p.erase)
+    rw [erase_vstepActs5, erase_vrunTo5 D O c na o p k]
+
+theorem erase_closeSoft5 (p : VProc5 σ κ Rec) : p.closeSoft.erase = p.erase.closeSoft := by
+  simp only [VDisk5.erase, VProc5.closeSoft, Proc5.closeSoft, VProc5.erase, erase_closeSoft, VSW.erase]
+
+theorem erase_closeHard5 (p : VProc5 σ κ Rec) (mask naMask : Nat) :
+    (p.closeHard mask naMask).erase = p.erase.closeHard mask naMask := by
+  simp only [VDisk5.erase, VProc5.closeHard, Proc5.closeHard, VProc5.erase, erase_closeHard,
+    erase_mergeRows, VSW.erase]
+
+theorem erase_startFresh5 (D : Dyn σ κ Rec) (O : NAObs σ Rec) (c : Cfg) (na : Nat) (σ0 : σ) :
+    (vstartFresh5 D O c na σ0).erase = startFresh5 c na := by
+  simp [VProc5.erase, vstartFresh5, startFresh5, erase_startFresh, erase_openFresh, eraseRows]
+
+theorem erase_startResume5 (D : Dyn σ κ Rec) (c : Cfg) (na : Nat) (d : VDisk5 κ Rec) (o : Nat) (k : κ)
+    (nx : Nat) : (vstartResume5 D c na d o k nx).erase = startResume5 c na d.erase o nx := by
+  simp only [VProc5.erase, vstartResume5, startResume5, erase_startResume, erase_openResume,
+    VDisk5.erase]
+
+theorem erase_vstart5 (D : Dyn σ κ Rec) (O : NAObs σ Rec) (c : Cfg) (na : Nat) (σ0 : σ)
+    (d : Option (VDisk5 κ Rec)) :
+    (vstart5 D O c na σ0 d).1.erase = (start5 c na (d.map VDisk5.erase)).1 ∧
+      (vstart5 D O c na σ0 d).2 = (start5 c na (d.map VDisk5.erase)).2 := by
+  cases d with
+  | none => exact ⟨erase_startFresh5 D O c na σ0, rfl⟩
+  | some dk =>
+    cases hc : dk.base.ckpt with
+    | none =>
+      have h2 : dk.erase.base.ckpt = none := by simp [VDisk5.erase, VDisk.erase, eraseCkpt, hc]
+      simp only [vstart5, hc, Option.map_some, start5, h2]
+      exact ⟨erase_startFresh5 D O c na σ0, trivial⟩
+    | some x =>
+      obtain ⟨o, k, nx⟩ := x
+      have h2 : dk.erase.base.ckpt = some (o, nx) := by
+        simp [VDisk5.erase, VDisk.erase, eraseCkpt, hc]
+      simp only [vstart5, hc, Option.map_some, start5, h2]
+      exact ⟨erase_startResume5 D c na dk o k nx, trivial⟩
+
+theorem erase_vsegBody5 (D : Dyn σ κ Rec) (O : NAObs σ Rec) (c : Cfg) (na : Nat) (p : VProc5 σ κ Rec)
+    (o : Nat) (cr : Option Crash5) :
+    (vsegBody5 D O c na p o cr).erase = segBody5 naLabel c na p.erase o cr := by
+  cases cr with
+  | none => simp only [vsegBody5, segBody5, erase_closeSoft5, erase_vrunTo5]
+  | some k =>
+    simp only [vsegBody5, segBody5]
+    split
+    · cases k.base.hard
+      · simp only [Bool.false_eq_true, if_false, erase_closeSoft5, erase_vstepActs5, erase_vrunTo5,
+          naLabel]
+      · simp only [if_true, erase_closeHard5, erase_vstepActs5, erase_vrunTo5, naLabel]
+    · simp only [erase_closeSoft5, erase_vrunTo5]
+
+/-- forgetting the values of a five-stream segment gives the label-level five-stream segment -/
+theorem erase_vsegment5 (D : Dyn σ κ Rec) (O : NAObs σ Rec) (c : Cfg) (na : Nat) (σ0 : σ)
+    (d : Option (VDisk5 κ Rec)) (cr : Option Crash5) :
+    (vsegment5 D O c na σ0 d cr).erase = segment5 naLabel c na (d.map VDisk5.erase) cr := by
+  unfold vsegment5 segment5
+  rw [erase_vsegBody5, (erase_vstart5 D O c na σ0 d).1, (erase_vstart5 D O c na σ0 d).2]
+
+theorem erase_vfinalDisk5 (D : Dyn σ κ Rec) (O : NAObs σ Rec) (c : Cfg) (na : Nat) (σ0 : σ) :
+    ∀ (ks : List Crash5) (d : Option (VDisk5 κ Rec)),
+      (vfinalDisk5 D O c na σ0 d ks).erase = finalDisk5 naLabel c na (d.map VDisk5.erase) ks
+  | [], d => erase_vsegment5 D O c na σ0 d none
+  | k :: ks, d => by
+    show (vfinalDisk5 D O c na σ0 (some (vsegment5 D O c na σ0 d (some k))) ks).erase =
+      finalDisk5 naLabel c na (some (segment5 naLabel c na (d.map VDisk5.erase) (some k))) ks
+    rw [erase_vfinalDisk5 D O c na σ0 ks, Option.map_some, erase_vsegment5]
+
+theorem erase_vhistory5 (D : Dyn σ κ Rec) (O : NAObs σ Rec) (c : Cfg) (na : Nat) (σ0 : σ) :
+    ∀ (ks : List Crash5) (d : Option (VDisk5 κ Rec)),
+      (vhistory5 D O c na σ0 d ks).map VDisk5.erase = history5 naLabel c na (d.map VDisk5.erase) ks
+  | [], d => by
+    simp only [vhistory5, history5, List.map_cons, List.map_nil, erase_vsegment5]
+  | k :: ks, d => by
+    simp only [vhistory5, history5, List.map_cons, erase_vsegment5]
+    rw [erase_vhistory5 D O c na σ0 ks, Option.map_some, erase_vsegment5]
+
+/-- process invariant with values, five streams: base as `VOKs`, every nonadiabatic row labelled
+    `s` (in memory or flushed) holds `naAt D O σ0 s` -/
+structure VOKs5 (D : Dyn σ κ Rec) (O : NAObs σ Rec) (σ0 : σ) (s : Nat) (p : VProc5 σ κ Rec) : Prop where
+  base : VOKs D σ0 s p.base
+  na : RowsOK (naAt D O σ0) p.na.rows
+  naFlushed : RowsOK (naAt D O σ0) p.naFlushed
+
+structure VDiskOK5 (D : Dyn σ κ Rec) (O : NAObs σ Rec) (σ0 : σ) (d : VDisk5 κ Rec) : Prop where
+  base : VDiskOK D σ0 d.base
+  na : RowsOK (naAt D O σ0) d.na
+
+def GoodV5 (D : Dyn σ κ Rec) (O : NAObs σ Rec) (c : Cfg) (na : Nat) (σ0 : σ) (d : VDisk5 κ Rec) : Prop :=
+  VDiskOK5 D O σ0 d ∧ DiskInv5 c na d.erase
+
+theorem VOKs5.stepActs5 {D : Dyn σ κ Rec} {O : NAObs σ Rec} {σ0 : σ} {o : Nat} {p : VProc5 σ κ Rec}
+    (h : VOKs5 D O σ0 o p) (c : Cfg) (na upto : Nat) (naDone : Bool) :
+    VOKs5 D O σ0 (o + 1) (vstepActs5 D O c na (o + 1) upto naDone p) := by
+  have hw : RowsOK (naAt D O σ0)
+      (if naDone || decide (0 < upto) then VSW.step na p.na (o + 1) (O.mid p.base.st) else p.na).rows := by
+    split
+    · rw [h.base.st]
+      exact RowsOK.step (f := naAt D O σ0) h.na na (o + 1)
+    · exact h.na
+  refine ⟨h.base.stepActs c upto, hw, ?_⟩
+  show RowsOK _ (if 4 < upto && isDue c.ckpt (o + 1) then _ else p.naFlushed)
+  split
+  · exact hw
+  · exact h.naFlushed
+
+theorem VOKs5.stepActs5' {D : Dyn σ κ Rec} {O : NAObs σ Rec} {σ0 : σ} {o s : Nat}
+    {p : VProc5 σ κ Rec} (h : VOKs5 D O σ0 o p) (hs : s = o + 1) (c : Cfg) (na upto : Nat)
+    (naDone : Bool) : VOKs5 D O σ0 s (vstepActs5 D O c na s upto naDone p) := by
+  subst hs; exact h.stepActs5 c na upto naDone
+
+theorem VOKs5.runTo5 {D : Dyn σ κ Rec} {O : NAObs σ Rec} {σ0 : σ} {o : Nat} {p : VProc5 σ κ Rec}
+    (h : VOKs5 D O σ0 o p) (c : Cfg) (na : Nat) : ∀ k, VOKs5 D O σ0 (o + k) (vrunTo5 D O c na o k p)
+  | 0 => h
+  | k + 1 => (VOKs5.runTo5 h c na k).stepActs5 c na 7 true
+
+theorem VOKs5.closeSoft {D : Dyn σ κ Rec} {O : NAObs σ Rec} {σ0 : σ} {s : Nat} {p : VProc5 σ κ Rec}
+    (h : VOKs5 D O σ0 s p) : VDiskOK5 D O σ0 p.closeSoft := ⟨h.base.ok.closeSoft, h.na⟩
+
+theorem VOKs5.closeHard {D : Dyn σ κ Rec} {O : NAObs σ Rec} {σ0 : σ} {s : Nat} {p : VProc5 σ κ Rec}
+    (h : VOKs5 D O σ0 s p) (mask naMask : Nat) : VDiskOK5 D O σ0 (p.closeHard mask naMask) :=
+  ⟨h.base.ok.closeHard mask, h.naFlushed.merge h.na naMask⟩
+
+theorem vstartFresh5_ok (D : Dyn σ κ Rec) (O : NAObs σ Rec) (c : Cfg) (na : Nat) (σ0 : σ) :
+    VOKs5 D O σ0 0 (vstartFresh5 D O c na σ0) :=
+  ⟨vstartFresh_ok D c σ0, RowsOK.openFresh (naAt D O σ0) _ _, RowsOK.replicate_none _ _⟩
+
+theorem vstart5_ok {D : Dyn σ κ Rec} {O : NAObs σ Rec} {σ0 : σ} {c : Cfg} {na : Nat}
+    (hcc : CkptComplete D c σ0) {d : Option (VDisk5 κ Rec)}
+    (hd : ∀ dk, d = some dk → GoodV5 D O c na σ0 dk) :
+    VOKs5 D O σ0 (vstart5 D O c na σ0 d).2 (vstart5 D O c na σ0 d).1 := by
+  cases d with
+  | none => exact vstartFresh5_ok D O c na σ0
+  | some dk =>
+    obtain ⟨hok, hinv⟩ := hd dk rfl
+    cases hc : dk.base.ckpt with
+    | none => simp only [vstart5, hc]; exact vstartFresh5_ok D O c na σ0
+    | some x =>
+      obtain ⟨o, k, nx⟩ := x
+      simp only [vstart5, hc]
+      have h2 : dk.erase.base.ckpt = some (o, nx) := by
+        simp [VDisk5.erase, VDisk.erase, eraseCkpt, hc]
+      obtain ⟨h1, h2', h3, _⟩ := hinv.1 o nx h2
+      exact ⟨vstartResume_ok hok.base hc (hcc o h1 h2' h3), hok.na, hok.na⟩
+
+theorem vsegBody5_ok {D : Dyn σ κ Rec} {O : NAObs σ Rec} {σ0 : σ} {c : Cfg} {na o : Nat}
+    {p : VProc5 σ κ Rec} (h : VOKs5 D O σ0 o p) (cr : Option Crash5) :
+    VDiskOK5 D O σ0 (vsegBody5 D O c na p o cr) := by
+  cases cr with
+  | none => exact (h.runTo5 c na _).closeSoft
+  | some k =>
+    simp only [vsegBody5]
+    split
+    · rename_i hk
+      have h1 := (h.runTo5 c na (k.base.step - 1 - o)).stepActs5' (s := k.base.step) (by omega) c na
+        k.base.upto k.naDone
+      cases k.base.hard
+      · exact h1.closeSoft
+      · exact h1.closeHard k.base.mask k.naMask
+    · exact (h.runTo5 c na _).closeSoft
+
+theorem map_erase_inv5 {D : Dyn σ κ Rec} {O : NAObs σ Rec} {σ0 : σ} {c : Cfg} {na : Nat}
+    {d : Option (VDisk5 κ Rec)} (hd : ∀ dk, d = some dk → GoodV5 D O c na σ0 dk) :
+    ∀ dk, d.map VDisk5.erase = some dk → DiskInv5 c na dk := by
+  intro dk h
+  cases d with
+  | none => cases h
+  | some dv =>
+    simp only [Option.map_some, Option.some.injEq] at h
+    subst h; exact (hd dv rfl).2
+
+theorem vsegment5_good {D : Dyn σ κ Rec} {O : NAObs σ Rec} {σ0 : σ} {c : Cfg} {na : Nat}
+    (hcc : CkptComplete D c σ0) {d : Option (VDisk5 κ Rec)}
+    (hd : ∀ dk, d = some dk → GoodV5 D O c na σ0 dk) (cr : Option Crash5) :
+    GoodV5 D O c na σ0 (vsegment5 D O c na σ0 d cr) := by
+  refine ⟨vsegBody5_ok (vstart5_ok hcc hd) cr, ?_⟩
+  rw [erase_vsegment5]
+  exact segment5_inv (map_erase_inv5 hd) cr
+
+theorem some_good5 {D : Dyn σ κ Rec} {O : NAObs σ Rec} {σ0 : σ} {c : Cfg} {na : Nat}
+    {d : VDisk5 κ Rec} (h : GoodV5 D O c na σ0 d) : ∀ dk, some d = some dk → GoodV5 D O c na σ0 dk := by
+  intro dk e; injection e with e; subst e; exact h
+
+theorem none_good5 {D : Dyn σ κ Rec} {O : NAObs σ Rec} {σ0 : σ} {c : Cfg} {na : Nat} :
+    ∀ dk, (none : Option (VDisk5 κ Rec)) = some dk → GoodV5 D O c na σ0 dk := fun _ h => by cases h
+
+theorem vhistory5_good {D : Dyn σ κ Rec} {O : NAObs σ Rec} {σ0 : σ} {c : Cfg} {na : Nat}
+    (hcc : CkptComplete D c σ0) :
+    ∀ (ks : List Crash5) (d : Option (VDisk5 κ Rec)), (∀ dk, d = some dk → GoodV5 D O c na σ0 dk) →
+      ∀ r ∈ vhistory5 D O c na σ0 d ks, GoodV5 D O c na σ0 r
+  | [], _, hd => by
+    intro r hr
+    simp only [vhistory5, List.mem_singleton] at hr
+    subst hr; exact vsegment5_good hcc hd none
+  | k :: ks, _, hd => by
+    intro r hr
+    simp only [vhistory5, List.mem_cons] at hr
+    rcases hr with hr | hr
+    · subst hr; exact vsegment5_good hcc hd (some k)
+    · exact vhistory5_good hcc ks _ (some_good5 (vsegment5_good hcc hd (some k))) r hr
+
+theorem vfinalDisk5_good {D : Dyn σ κ Rec} {O : NAObs σ Rec} {σ0 : σ} {c : Cfg} {na : Nat}
+    (hcc : CkptComplete D c σ0) :
+    ∀ (ks : List Crash5) (d : Option (VDisk5 κ Rec)), (∀ dk, d = some dk → GoodV5 D O c na σ0 dk) →
+      GoodV5 D O c na σ0 (vfinalDisk5 D O c na σ0 d ks)
+  | [], _, hd => vsegment5_good hcc hd none
+  | k :: ks, _, hd => vfinalDisk5_good hcc ks _ (some_good5 (vsegment5_good hcc hd (some k)))
+
+theorem eq_vspecDisk5 {D : Dyn σ κ Rec} {O : NAObs σ Rec} {σ0 : σ} {c : Cfg} {na : Nat}
+    {d : VDisk5 κ Rec} (hok : VDiskOK5 D O σ0 d) (he : d.erase = specDisk5 c na) :
+    d = vspecDisk5 D O c na σ0 := by
+  obtain ⟨b, n⟩ := d
+  simp only [VDisk5.erase, specDisk5, Disk5.mk.injEq, specRows] at he
+  have h1 := eq_vspecDisk hok.base he.1
+  have h2 := rows_eq_of_erase hok.na he.2
+  simp only at h1 h2
+  simp only [vspecDisk5, vspecRows, h1, h2]
+
 end MDState
